@@ -259,8 +259,7 @@ Builtin and c-extension modules that are allowed to be imported and inspected by
         """Set the value of `key` preference to `value`."""
         if key in self.callbacks:
             self.callbacks[key](value)
-        else:
-            setattr(self, key, value)
+        setattr(self, key, value)
 
     def add(self, key: str, value: Any):
         """Add an entry to a list preference
